@@ -1399,7 +1399,21 @@ func genC14(g *G, sc *Scenario, tier string, seed uint64) {
 			m.Batch(ds, ents)
 			ops = append(ops, Op{K: "batch", DS: ds, Ents: ents})
 		case x < 0.36:
-			ops = append(ops, Op{K: hg.Pick([]string{"createDataset", "deleteDataset"}), DS: hg.Pick([]string{"dsX", "dsY"})})
+			op := Op{K: hg.Pick([]string{"createDataset", "deleteDataset"}), DS: hg.Pick([]string{"dsX", "dsY"})}
+			if op.K == "createDataset" {
+				// dataset settings given at creation are part of the state a restart has to bring back
+				switch hg.Intn(6) {
+				case 0:
+					op.M = map[string]any{"proxy": "http://remote.example.org/datasets/x"}
+				case 1:
+					op.M = map[string]any{"virtual": "ZnVuY3Rpb24gYnVpbGRfZW50aXRpZXMoKSB7fQ=="}
+				case 2:
+					op.M = map[string]any{"publicNamespaces": []any{ExE, ExS}}
+				case 3:
+					op.M = map[string]any{"proxy": "http://remote.example.org/datasets/y", "publicNamespaces": []any{ExE}}
+				}
+			}
+			ops = append(ops, op)
 		case x < 0.40:
 			ops = append(ops, Op{K: "renameDataset", DS: "dsX", DS2: "dsY"})
 		case x < 0.52:
@@ -1459,10 +1473,16 @@ func genC15(g *G, sc *Scenario, tier string) {
 	c.MaxBatch = g.Range(1, 5)
 	sc.Knobs["jobBatch"] = int64(g.Range(1, 4))
 	sc.Knobs["web.batchSize"] = int64(g.PickInt([]int{1, 2, 10}))
+	// a few identifiers whose serialised forms collide as strings with the declared prefix names
+	c.Pool = append(c.Pool, MkS+"K0", MkE+"t1carl", MkE+"t")
 	m := NewModel()
 	m.Create("src")
 	mm := NewModel()
 	mm.Create("mal")
+	tm := NewModel()
+	for _, d := range []string{"tx1", "tx2", "tx3"} {
+		tm.Create(d)
+	}
 	replaces := [][2]string{
 		{`"deleted":true`, `"deleted":"true"`}, {`"refs":{`, `"refs":{"zz:bad":5,`}, {`"id":"ns`, `"id":7,"x":"ns`}, {`"props":{`, `"props":[`},
 		{`"recorded":`, `"recorded":"x`}, {`"namespaces":{`, `"namespaces":[{`}, {`{"id":"@continuation"`, `{"id":12`},
@@ -1502,6 +1522,28 @@ func genC15(g *G, sc *Scenario, tier string) {
 			sc.Ops = append(sc.Ops, op)
 			if len(faults) > 0 {
 				sc.Ops = append(sc.Ops, Op{K: kind}) // a clean transfer afterwards catches up
+			}
+		}
+		if g.P(0.5) {
+			// a transaction over 1-3 datasets, now and then with a defect
+			var parts []Part
+			for _, d := range []string{"tx1", "tx2", "tx3"} {
+				if g.P(0.65) {
+					c.Datasets = []string{d}
+					parts = append(parts, Part{DS: d, Ents: g.batch(c, tm, d)})
+				}
+			}
+			c.Datasets = []string{"src"}
+			if len(parts) > 0 {
+				op := Op{K: "txn", Parts: parts, N: g.Intn(6)}
+				if g.P(0.35) {
+					op.M = map[string]any{"kind": g.Pick([]string{"truncate", "truncate", "dataset-object", "dataset-string", "entity-id-number", "namespaces-array", "unknown-dataset"}), "at": g.Range(1, 1500)}
+				} else {
+					for _, p := range parts {
+						tm.Batch(p.DS, p.Ents)
+					}
+				}
+				sc.Ops = append(sc.Ops, op)
 			}
 		}
 		for k := g.Range(0, 2); k > 0; k-- {
